@@ -85,6 +85,25 @@ print("rule", %(elem)r, %(npg)d, "monomial exponents", e, ": quadrature", float(
 sys.exit(1 if abs(val - ref) > F(1, 10**14) else 0)
 '''
 
+REPLAY_GROUP = r'''
+import sys, numpy as np
+from EasyFEA.FEM._gauss import Gauss
+from EasyFEA.FEM._group_elem import GroupElemFactory
+from EasyFEA.FEM._utils import ElemType, MatrixType
+bad = 0
+for order in (list(ElemType), list(ElemType)[::-1]):
+    for et in order:
+        if et == ElemType.POINT:
+            continue
+        gid, nPe, dim = GroupElemFactory.DICT_ELEMTYPE[et][:3]
+        g = GroupElemFactory.GROUP_CLASS_MAP[et](gid, np.arange(nPe).reshape(1, -1), np.zeros((nPe, 3)))
+        for mt in (MatrixType.rigi, MatrixType.mass):
+            a, b = g.Get_gauss(mt), Gauss(et, mt)
+            if a.nPg != b.nPg or not np.array_equal(a.coord, b.coord) or not np.array_equal(a.weights, b.weights):
+                print(et.name, mt.name, "group rule", a.nPg, "points; factory", b.nPg); bad += 1
+sys.exit(1 if bad else 0)
+'''
+
 REPLAY_RANK = r'''
 import sys, numpy as np
 from EasyFEA.FEM._group_elem import GroupElemFactory
@@ -304,6 +323,28 @@ def run(ctx):
     ctx.obligation("factory tables are the per-count tables (bitwise)", not incons, "; ".join(incons[:3]))
     for m in incons:
         ctx.violation("factory-table:" + re.sub(r"\W+", "_", m)[:60], m, {"detail": m}, found_input=True)
+    # rules as the element groups obtain them, every type in one process, in two orders
+    fac = {(f["elem"], f["matrix"]): f for f in dump["factory"]}
+    gbad = []
+    for order in ("fwd", "rev"):
+        if order == "fwd":
+            dd = dump
+        else:
+            rc2, out2, err2 = ctx.impl_python(os.path.join(common.VERIF, "corr", "impl_gauss.py"), args=["rev"], timeout=300)
+            if rc2 != 0:
+                gbad.append("reverse-order dump failed: " + (err2.strip().splitlines() or ["?"])[-1][:150])
+                continue
+            dd = json.loads(out2)
+        for gentry in dd.get("group", []):
+            f = fac.get((gentry["elem"], gentry["matrix"]))
+            ctx.note_case("group-rule:%s/%s:%s" % (gentry["elem"], gentry["matrix"], order))
+            if f is None or f["pts"] != gentry["pts"] or f["w"] != gentry["w"] or gentry["w_pg"] != f["w"]:
+                gbad.append("%s/%s (%s order): the group's rule has %d points, Gauss(elemType, matrixType) has %s" % (
+                    gentry["elem"], gentry["matrix"], order, gentry["npg"], f["npg"] if f else "none"))
+    ctx.obligation("element groups obtain exactly the factory's rule (both creation orders, one process)", not gbad, "; ".join(gbad[:3]))
+    for m in gbad[:8]:
+        key = "group-rule:" + re.sub(r"\W+", "_", m.split(":")[0])[:50]
+        ctx.violation(key, m, {"detail": m, "replay_py": REPLAY_GROUP}, True)
     ctx.cov["rules"] = len(dump["rules"])
     ctx.cov["factory_pairs"] = len(dump["factory"])
     for r in dump["rules"]:
